@@ -99,6 +99,7 @@ def gBudget (ed : Ed) : Nat := 4 * (ed.len.toNat + 4) * (ed.len.toNat + 4) + 64
 /-- `ec_glob` in terms of the pieces above -/
 theorem ecGlob_eq' (f : Nat) (ed : Ed) (loc cmd arg : Bytes) :
     ecGlob (f + 1) ed loc cmd arg =
+      if ed.xgdep ≥ 7 then some ((1 : Int), ed.show (strOf "global commands nested too deep")) else
       match exRegion ed (if loc.isEmpty && ed.xgdep == 0 then [37] else loc) with
       | none => none
       | some ((rc, b, e), ed) =>
